@@ -236,14 +236,15 @@ def assemble_files(texts: List[str], w: int, workdir: Path, tag: str):
         p.write_text(t)
         paths.append(p)
     out, dbg = workdir / f"{tag}.fjm", workdir / f"{tag}.fjd"
-    try:
-        with contextlib.redirect_stdout(io.StringIO()):
-            flipjump.assemble(paths, out, memory_width=w, fjm_version=FJMVersion(1), use_stl=False, print_time=False,
-                              debugging_file_path=dbg, warning_as_errors=False)
-    except FlipJumpException as e:
-        return {"ok": False, "err": f"{type(e).__name__}: {str(e)[:300]}"}
-    except BaseException as e:  # noqa: BLE001
-        return {"ok": False, "err": f"raw {type(e).__name__}: {str(e)[:300]}"}
+    with engines._Alarm(60.0) as alarm:          # every run of the code under test is bounded
+        try:
+            with contextlib.redirect_stdout(io.StringIO()):
+                flipjump.assemble(paths, out, memory_width=w, fjm_version=FJMVersion(1), use_stl=False, print_time=False,
+                                  debugging_file_path=dbg, warning_as_errors=False)
+        except FlipJumpException as e:
+            return {"ok": False, "err": f"{type(e).__name__}: {str(e)[:300]}"}
+        except BaseException as e:  # noqa: BLE001
+            return {"ok": False, "err": ("raw did-not-terminate-in-60s " if alarm.fired else "raw ") + f"{type(e).__name__}: {str(e)[:300]}"}
     r = Reader(out)
     return {"ok": True, "mem": dict(r.memory), "segs": [(s.segment_start, s.segment_length) for s in r.memory_segments],
             "table": load_debugging_labels(dbg)}
